@@ -42,7 +42,7 @@ def register(reg):
         requires=lambda ctx: Not(is_none(ctx.info)),
         note="assumed: value function PREP(data, info); may refuse with FinamDataError",
     ))
-    reg.add(Contract("finam.data.tools.core.strip_time", params={"xdata": Pay, "grid": TOpt(TObj("grid"))}, pure=True, verify=False,
+    reg.add(Contract("finam.data.tools.core.strip_time", params={"xdata": Pay, "grid": TOpt(TRef("GridBase"))}, pure=True, verify=False,
                      result_fn=lambda ctx: ctx.xdata, raises={"FinamDataError": lambda ctx: z3.BoolVal(True)},
                      note="assumed: strips the leading time axis of length one, values unchanged (payload = R)"))
 
@@ -138,7 +138,7 @@ def register_verified(reg):
                 te = v.e
         y = x if te is None else If(is_none(tr), x, TRANSF(te, x))
         info = ctx.get(s, "_input_info")
-        units = ctx.get(strip_none(info).e, "$units")
+        units = ctx.get(strip_none(info).e, "meta").val(z3.Const("str:units", sv.StrS))
         ue = None
         for g, v in sv.alts_of(units):
             if isinstance(v, sv.SObj):
